@@ -333,16 +333,17 @@ Plan genHostile(const std::string& prop, int tier, uint64_t batchSeed, uint64_t 
     Rng& r = g.rng;
     const bool c02 = prop == "C02", c17 = prop == "C17";
     g.cfg().set("rx", 1).set("tail", c17 ? 1 : 0).set("nullbuf", c02 ? 1 : 0);
-    const size_t nNodes = 2 + r.below(c02 ? 3 : 5);
+    const bool manyEndpoints = !c02 && r.chance(1, 10);  // beyond the tiny alphabets: table growth and rehashing
+    const size_t nNodes = manyEndpoints ? 8 + r.below(20) : 2 + r.below(c02 ? 3 : 5);
     // tiny alphabets so that collisions of one coordinate are the norm
     std::vector<std::pair<int, int>> eps;
     {
         const int devs[3] = {static_cast<int>(r.pick<int64_t>({1, 0, 0x0100})), static_cast<int>(r.pick<int64_t>({2, 0xFFFF, 0x0101})), 3};
         const int strs[3] = {static_cast<int>(r.pick<int64_t>({0, 1})), static_cast<int>(r.pick<int64_t>({2, 0xFF})), 3};
         std::set<std::pair<int, int>> s;
-        const bool crowd = r.chance(1, 6);  // one device with random streams: keys colliding in one coordinate and in hash buckets
+        const bool crowd = manyEndpoints || r.chance(1, 6);  // one device with random streams: keys colliding in one coordinate and in hash buckets
         while (s.size() < nNodes)
-            s.insert({devs[crowd ? 0 : r.below(3)], crowd ? static_cast<int>(r.below(256)) : strs[r.below(3)]});
+            s.insert({devs[crowd && !manyEndpoints ? 0 : r.below(3)], crowd ? static_cast<int>(r.below(256)) : strs[r.below(3)]});
         eps.assign(s.begin(), s.end());
     }
     std::vector<int> nodeType(nNodes);
@@ -428,7 +429,7 @@ Plan genHostile(const std::string& prop, int tier, uint64_t batchSeed, uint64_t 
     if (tier && r.chance(1, 50))
         nOps = 2000 + r.below(3000);  // soak
     else
-        nOps = tier ? 5 + r.below(120) : 3 + r.below(40);
+        nOps = (manyEndpoints ? 40 : 0) + (tier ? 5 + r.below(120) : 3 + r.below(40));
     // swarm: enabled event classes
     const bool enFault = r.chance(4, 5), enOrphan = r.chance(2, 3), enTecmp = r.chance(1, 2), enNoise = r.chance(1, 2), enRestart = r.chance(1, 3),
                enStale = r.chance(1, 3);
